@@ -27,7 +27,7 @@ class Namer:
 
 @st.composite
 def scope_programs(draw, tier, fail=2, volatile=2, until=3, late_spawn=2, priv=1, flags=True,
-                   finally_spawn=1, nocatch=0, uncaught_blocks=0):
+                   finally_spawn=1, nocatch=0, uncaught_blocks=0, finally_raise=0):
     """A program whose roots own trees of nested Scope/until blocks.
 
     Weights (0..10) steer how often failures / volatile children / until-blocks / late spawns occur.
@@ -47,7 +47,7 @@ def scope_programs(draw, tier, fail=2, volatile=2, until=3, late_spawn=2, priv=1
         cls = draw(st.sampled_from(PRIV)) if w(priv) else draw(st.sampled_from(EXC))
         return {'op': 'raise', 'eid': nm.eid(), 'cls': cls}
 
-    def activity_steps(depth, scope_chain, may_fail=True):
+    def activity_steps(depth, scope_chain, may_fail=True, toplevel=False):
         out = []
         for _ in range(draw(st.integers(0, 4))):
             r = draw(st.integers(0, 19))
@@ -77,6 +77,10 @@ def scope_programs(draw, tier, fail=2, volatile=2, until=3, late_spawn=2, priv=1
                 out.append({'op': 'finally', 'body': [sl(), sl()],
                             'final': [{'op': 'spawn_into', 'ref': draw(st.sampled_from(scope_chain)),
                                        'child': {'name': cn, 'steps': [sl(), {'op': 'mark', 'v': 'late'}, sl()]}}]})
+            elif r < 18 and finally_raise and toplevel and w(finally_raise * 3):
+                # clean-up code that fails - also when the activity is closed by its scope
+                out.append({'op': 'finally', 'body': [sl(), sl()],
+                            'final': [{'op': 'raise', 'eid': nm.eid(), 'cls': draw(st.sampled_from(PRIV)) if w(priv) else draw(st.sampled_from(EXC))}]})
             elif r < 18 and nflags:
                 out.append({'op': 'set_flag', 'i': draw(st.integers(0, nflags - 1)), 'v': True})
             else:
@@ -104,7 +108,7 @@ def scope_programs(draw, tier, fail=2, volatile=2, until=3, late_spawn=2, priv=1
             targets.append(cn)
             ch = {'name': cn}
             vol = w(volatile)
-            ch['steps'] = activity_steps(depth, chain)
+            ch['steps'] = activity_steps(depth, chain, toplevel=True)
             if vol:
                 ch['volatile'] = True
                 if draw(st.booleans()):
